@@ -281,6 +281,55 @@ def collapse_chains(spec):
         m_spec.CONTEXT["enabled"] = True
 
 
+def same_up_to_single_child_rules(spec1, spec2):
+    """Classification aid: are the two specifications the same regular tree once every rule with
+    a single non-empty child (equivalences and two-way rules that are not equivalences alike) is
+    skipped?  Coinductive comparison of the unfoldings: constructor type, number of non-empty
+    children, atoms by size, children in any order."""
+    import itertools
+
+    def resolve(spec, c):
+        seen = set()
+        while c not in seen:
+            seen.add(c)
+            r = spec.rules_dict.get(c)
+            if r is None:
+                return c, None, ()
+            kids = [k for k in r.children if not k.is_empty()]
+            if len(kids) != 1 or not r.children:
+                return c, r, kids
+            c = kids[0]
+        return c, None, ()
+
+    assumed = set()
+
+    def same(c1, c2):
+        a, r1, k1 = resolve(spec1, c1)
+        b, r2, k2 = resolve(spec2, c2)
+        if (a, b) in assumed:
+            return True
+        if r1 is None or r2 is None or len(k1) != len(k2):
+            return False
+        if not k1:
+            return a.is_atom() and b.is_atom() and a.minimum_size_of_object() == b.minimum_size_of_object()
+        try:
+            if type(r1.constructor) is not type(r2.constructor):
+                return False
+        except NotImplementedError:
+            return False
+        assumed.add((a, b))
+        for perm in itertools.permutations(range(len(k2))):
+            snapshot = set(assumed)
+            if all(same(x, k2[j]) for x, j in zip(k1, perm)):
+                return True
+            assumed.clear()
+            assumed.update(snapshot)
+        assumed.discard((a, b))
+        return False
+
+    return same(spec1.root, spec2.root)
+
+
 def has_split_chain(spec):
     from comb_spec_searcher.strategies.rule import Rule
 
@@ -378,6 +427,13 @@ def run_case(case):
                     pass
                 finally:
                     m_bijection._DEPTH[0] -= 1
+            if why == "other" and case["variant"] == "eqpath" and not fin and \
+                    any("minimise_ne" in p.get("inferral", ()) or p.get("sym") == "ne" for p in (case["p1"], case["p2"])):
+                try:
+                    if same_up_to_single_child_rules(spec1, spec2):
+                        why = "non-equivalence-unary-rules-misaligned"
+                except Exception:  # noqa: BLE001
+                    pass
             if why == "other" and _LAST_SECOND_SEARCH.get("pair_itself_unmatched"):
                 why = "assigned-pair-itself-unmatched"
             elif why == "other" and unmatched_descendants():
